@@ -15,8 +15,17 @@ Level: exploration, with a model-checked capacity sub-model and a model-checked 
      accepted value through the feature
 
 Violation = panic / abort / stack overflow / watchdog / error returned to the processing loop on an input the
-parser accepted.  Signature = panic location file:line (or "stack-overflow" / "hang").  Signatures listed in
-known_findings.json are reported as KNOWN-FINDING (exit 0); any other signature is a VIOLATION (exit 1)."""
+parser accepted.  Signature = the panic site as `file fn name: source text of the panicking line` (no line numbers:
+they shift with unrelated edits; dependency panics: crate file@innermost function of the code under test: message),
+or "stack-overflow" / "hang".  A signature listed in known_findings.json is reported as KNOWN-FINDING (exit 0) only
+for inputs inside that finding's input class (`requires`: regexes on the configuration text, `requires_history`:
+ticks>=N / events>=N); the same site reached by another class of input, and any other signature, is a VIOLATION
+(exit 1).  A watchdog hit counts only if the pair, run alone with a ten times larger limit, hangs again.
+
+Quick tier (<= 3 min): 9 + 13 targeted, ~3 k context texts, 700 random configurations, 5 depth-bounded capacity
+instances of <= ~35 k states each run one after the other with 8 TLC workers (a TLC timeout keeps the witnesses
+found so far and is reported in the notes, never a tool error), the contract table.  Thorough: more of everything,
+deeper capacity instances, crashes minimised."""
 import concurrent.futures, hashlib, json, os, random, re, subprocess, time
 from kv import *
 import kv, flow, cfggen, cfgdesc
@@ -493,7 +502,7 @@ def explore(tier, seed, wd, acc, notes):
     log("[c02] contexts: %d texts, %d accepted, %d executions (%.1fs)" % (len(texts), ast["accepted"], len(res), time.time() - t1))
     # ---- 3. random configurations
     t2 = time.time()
-    ncfg = 700 if tier == "quick" else 12000
+    ncfg = 700 if tier == "quick" else 8000
     texts, metas = [], []
     for i in range(ncfg):
         d = rng.choice([1, 2, 2, 3, 3, 4]) if tier == "quick" else rng.choice([1, 2, 3, 3, 4, 5])
